@@ -1,13 +1,18 @@
-(* C19 - Only what is in scope is shown, and it belongs to the selected frame.  Statements only. *)
+(* C19 - Only what is in scope is shown, and it belongs to the selected frame.  Statements only
+   (source at /repo HEAD 9f6d836). *)
 From BS Require Import Model.Base.
 From W Require Import ModelScope ProofsScope.
 Open Scope N_scope.
 
 (* the breadth-first traversal terminates within its fuel and sees exactly the DIEs below
-   the function, each with the ranges of its nearest enclosing scope DIE *)
+   the function, each with the ranges of its nearest enclosing scope DIE ... *)
 Theorem C19_visit_desc : forall sc root,
   exists l, visit sc root = Ok l /\ forall v, In v l <-> desc sc O None root v.
 Proof. exact visit_desc. Qed.
+
+(* ... in order of non-decreasing depth *)
+Theorem C19_visit_mono : forall sc root l, visit sc root = Ok l -> mono l.
+Proof. exact visit_mono. Qed.
 
 (* what `var locals` lists *)
 Theorem C19_local_variables_desc : forall root pc,
@@ -16,13 +21,13 @@ Theorem C19_local_variables_desc : forall root pc,
                           is_var (v_die v) = true /\ valid_at (v_ctx v) pc = true).
 Proof. exact local_variables_desc. Qed.
 
-(* listed = in lexical scope (no variable of a sibling block, none of an enclosing function
-   part that does not cover pc), for functions without inlined calls *)
+(* listed = in lexical scope (no variable of a sibling block, none of a block that does not
+   cover pc), for functions without inlined calls *)
 Theorem C19_scope_partial : forall root pc, no_inlined root = true ->
   exists l, local_variables root pc = Ok l /\ forall v, In v l <-> in_scope root pc v.
 Proof. exact scope_partial. Qed.
 
-(* variables of an inlined call are attributed to the caller's block *)
+(* STILL REFUTED: variables of an inlined call are attributed to the caller's block *)
 Theorem C19_scope_refuted : exists root pc l v,
   local_variables root pc = Ok l /\ In v l /\
   ~ exists v', in_scope root pc v' /\ v_die v' = v_die v.
@@ -52,30 +57,29 @@ Theorem C19_local_variable_sound : forall root pc name,
     end.
 Proof. exact local_variable_sound. Qed.
 
-(* ... the innermost one when only one is live ... *)
-Theorem C19_shadow_partial : forall root pc name,
-  no_inlined root = true -> single_candidate root pc name = true ->
-  exists v, local_variable root pc name = Ok (Some v) /\ innermost root pc name v.
+(* HEADLINE.  A shadowed name resolves to an innermost live binding *)
+Theorem C19_shadow_partial : forall root pc name, no_inlined root = true ->
+  exists r, local_variable root pc name = Ok r /\
+    match r with
+    | Some v => innermost root pc name v
+    | None => forall v, in_scope root pc v -> name_is (v_die v) name = false
+    end.
 Proof. exact shadow_partial. Qed.
 
-(* ... and the OUTER one when a shadowing binding is live too *)
-Theorem C19_shadow_refuted : exists root pc name v,
-  no_inlined root = true /\ local_variable root pc name = Ok (Some v) /\
-  d_off (v_die v) = 3 /\ ~ innermost root pc name v.
-Proof. exact shadow_refuted. Qed.
+(* ... the one the computable specification picks *)
+Theorem C19_lookup_exact_partial : forall root pc name, no_inlined root = true ->
+  local_variable root pc name = spec_lookup root pc name.
+Proof. exact lookup_exact_partial. Qed.
 
-(* location lists *)
-Theorem C19_loclist_partial : forall pc l, no_end_at pc l = true ->
+(* location lists: the entry whose half-open range contains pc *)
+Theorem C19_loclist_exact : forall pc l, no_bad l = true ->
   loclist_select pc l = spec_loclist_select pc l.
-Proof. exact loclist_partial. Qed.
+Proof. exact loclist_exact. Qed.
 
-Theorem C19_loclist_refuted : exists pc l,
-  loclist_select pc l = Some 1 /\ spec_loclist_select pc l = Some 2.
-Proof. exact loclist_refuted. Qed.
-
-Theorem C19_loclist_past_end_refuted : exists pc l,
-  loclist_select pc l = Some 1 /\ spec_loclist_select pc l = None.
-Proof. exact loclist_past_end_refuted. Qed.
+Theorem C19_loc_select_exact : forall pc loc,
+  match loc with LocList l => no_bad l = true | _ => True end ->
+  loc_select pc loc = spec_loc_select pc loc.
+Proof. exact loc_select_exact. Qed.
 
 (* non-vacuity: two sibling blocks, pc in the first: only its variable is listed *)
 Example C19_example :
@@ -88,20 +92,27 @@ Example C19_example :
   filter_map d_name (parameters t) = [5].
 Proof. vm_compute. repeat split; reflexivity. Qed.
 
+Example C19_example_shadow :
+  no_inlined tree_shadow = true /\
+  match local_variable tree_shadow 4144 7 with Ok (Some v) => d_off (v_die v) | _ => 0 end = 5 /\
+  match local_variable tree_shadow 4120 7 with Ok (Some v) => d_off (v_die v) | _ => 0 end = 3.
+Proof. exact shadow_applies. Qed.
+
 Example C19_example_cases :
   locals_check (mk_locals_case tree_shadow 4144 [7; 7]) = 0 /\
   locals_check (mk_locals_case tree_inlined 4176 [7]) = 2 /\
+  lookup_check (mk_lookup_case tree_shadow 4144 7 (Some [(4128, 4320)])) = 0 /\
   lookup_check (mk_lookup_case tree_shadow 4144 7 (Some [(4112, 4336)])) = 2 /\
-  lookup_check (mk_lookup_case tree_shadow 4144 7 (Some [(4128, 4320)])) = 1 /\
+  loc_check (mk_loc_case (LocList [LEntry 16 32 1; LEntry 32 48 2]) 32 (Some 2)) = 0 /\
   loc_check (mk_loc_case (LocList [LEntry 16 32 1; LEntry 32 48 2]) 32 (Some 1)) = 2 /\
-  loc_check (mk_loc_case (LocList [LEntry 16 32 1; LEntry 32 48 2]) 40 (Some 2)) = 0.
+  loc_check (mk_loc_case (LocList [LEntry 16 32 1]) 32 None) = 0.
 Proof. vm_compute. repeat split; reflexivity. Qed.
 
 Print Assumptions C19_visit_desc.
+Print Assumptions C19_visit_mono.
 Print Assumptions C19_scope_partial.
 Print Assumptions C19_scope_refuted.
 Print Assumptions C19_same_block_same_listing.
 Print Assumptions C19_shadow_partial.
-Print Assumptions C19_shadow_refuted.
-Print Assumptions C19_loclist_partial.
-Print Assumptions C19_loclist_refuted.
+Print Assumptions C19_lookup_exact_partial.
+Print Assumptions C19_loclist_exact.
